@@ -63,8 +63,8 @@ theorem decPos_encPos (P : Params) (goal : Bool) (p : Pos) (h : okPos P goal p) 
     decPos P goal (encPos P p) = some (normPos P p) := by
   cases p with
   | point p =>
-    have hf : find "point" [(ptE P).el "point" p] = some ((ptE P).el "point" p) := find_singleton_self _ _ rfl
-    simp only [decPos, encPos, hf, (ptE_lawful P).rt "point" p ⟨trivial, trivial⟩, normPos]
+    have hf : find "point" [(pt3E P).el "point" p] = some ((pt3E P).el "point" p) := find_singleton_self _ _ rfl
+    simp only [decPos, encPos, hf, (pt3E_lawful P).rt "point" p ⟨trivial, trivial, fun _ _ => trivial⟩, normPos]
   | region s =>
     cases s with
     | one s =>
